@@ -4,13 +4,20 @@
 (* override_configuration (layer M) against P on each.                                             *)
 EXTENDS Config, TLC, Json
 CONSTANTS Discoveries
-VARIABLES cliP, fileP, disc, cliE
+VARIABLES cliP, fileP, disc, cliE, tab
 
+TableProfiles == {"basic", "overlap", "same"}
 \* cliE: at most one setting whose option is given with an EMPTY value (prefixes only: an empty package is a refusal, C07)
 Init == /\ cliP \in SUBSET Settings /\ fileP \in SUBSET Settings /\ disc \in Discoveries
         /\ cliE \in {{}} \cup {{s} : s \in {"swift_prefix", "kotlin_prefix"} \ cliP}
         /\ (cliE # {} => disc = "flag")
-Next == UNCHANGED <<cliP, fileP, disc, cliE>>
+        \* tab: which file-only tables (type mappings, decorators, generic constraints, CodableVoid constraints, acronyms,
+        \* no_pointer_slice) the configuration file carries: basic / overlap (several entries, the same entry in more than one list,
+        \* two mappings) / same (one-entry lists sharing their entry; a mapping onto the Rust name of another field's type).
+        \* P (Trace_C20): whatever the profile, every table shows in the output exactly as written.
+        /\ tab \in TableProfiles
+        /\ (tab # "basic" => (cliP = {} /\ cliE = {} /\ disc = "flag"))
+Next == UNCHANGED <<cliP, fileP, disc, cliE, tab>>
 
 Val(src, s) == src \o "_" \o s          \* distinguishable values, e.g. "cli_swift_prefix"
 Cli == [s \in Settings |-> IF s \in cliE THEN GivenEmpty ELSE IF s \in cliP THEN Val("cli", s) ELSE Absent]
@@ -24,6 +31,6 @@ ModelAgrees == MOverride = Effective(Cli, File)
 \* "flag_over_*" discoveries BOTH exist: the -c file holds `File`, and a decoy typeshare.toml with other values for every
 \* setting lies in the working directory / its parent. The file the user names is the configuration (P: File, never the decoy).
 HasDecoy == disc \in {"flag_over_cwd", "flag_over_parent"}
-Emit == PrintT(<<"REPLAY", ToJson([cli |-> Cli, file |-> File, disc |-> disc, decoy |-> HasDecoy, effective |-> Effective(Cli, File),
+Emit == PrintT(<<"REPLAY", ToJson([cli |-> Cli, file |-> File, disc |-> disc, tables |-> tab, decoy |-> HasDecoy, effective |-> Effective(Cli, File),
                                    gen |-> Effective(Cli, NoFile)])>>)
 =============================================================================
